@@ -235,10 +235,11 @@ func runC07(r *core.Run) {
 		{name: "mint-after-the-paid-invoice-lapsed", kind: "mint", lapsed: true},
 	}
 	type job struct {
-		sc   c07Scen
-		mode string
-		k    int
-		n    int
+		sc     c07Scen
+		mode   string
+		k      int
+		n      int
+		method string // midfault: the storage call in the middle of which the error strikes
 	}
 	var jobs []job
 	exhaustive := true
@@ -283,9 +284,13 @@ func runC07(r *core.Run) {
 			continue
 		}
 		for k := 0; k <= n; k++ {
-			jobs = append(jobs, job{sc, "crash", k, n})
+			jobs = append(jobs, job{sc, "crash", k, n, ""})
 			if k < n {
-				jobs = append(jobs, job{sc, "fault", k, n})
+				jobs = append(jobs, job{sc, "fault", k, n, ""})
+				// a storage error in the middle of a multi-row write (its second row cannot be inserted)
+				if m := names[k]; m == "SaveProofs" || m == "AddPendingProofs" || m == "SaveBlindSignatures" {
+					jobs = append(jobs, job{sc, "midfault", k, n, m})
+				}
 			}
 		}
 
@@ -297,10 +302,10 @@ func runC07(r *core.Run) {
 		if !r.Want(sig) {
 			return
 		}
-		c07Run(r, j.sc, j.mode, j.k, j.n, sig, int64(ji), false)
+		c07Run(r, j.sc, j.mode, j.k, j.n, sig, int64(ji), false, j.method)
 		if j.sc.kind == "melt" || j.sc.kind == "poll" || j.sc.kind == "checkstate" {
 			if xsig := sig + "/without-resubmission"; r.Want(xsig) {
-				c07Run(r, j.sc, j.mode, j.k, j.n, xsig, int64(ji)+100000, true)
+				c07Run(r, j.sc, j.mode, j.k, j.n, xsig, int64(ji)+100000, true, j.method)
 			}
 		}
 	})
@@ -311,7 +316,7 @@ func runC07(r *core.Run) {
 
 // exploit = true: the client after the restart does not send the interrupted request again but goes
 // straight for whatever can be realised (re-spend the inputs, spend restored outputs, mint the quote).
-func c07Run(r *core.Run, sc c07Scen, mode string, k, n int, sig string, seed int64, exploit bool) {
+func c07Run(r *core.Run, sc c07Scen, mode string, k, n int, sig string, seed int64, exploit bool, method string) {
 	c, err := c07Setup(r, sc, r.Seed*100_000+seed)
 	if err != nil {
 		r.Inconclusive("setup: " + err.Error())
@@ -330,11 +335,43 @@ func c07Run(r *core.Run, sc c07Scen, mode string, k, n int, sig string, seed int
 		inj.Err = errors.New("VERIF-INJECTED-FAULT")
 	}
 	cnt := &ctl.Counter{Filter: func(ev *ctl.Event) bool { return ev.Thread == "op" }}
+	var midUndo func()
+	midKey := ""
+	if mode == "midfault" {
+		// no call is replaced: the k-th call runs and fails inside, at its second row
+		inj.K = -1
+		table, column := "", ""
+		switch method {
+		case "SaveProofs":
+			table, column = "proofs", "y"
+		case "AddPendingProofs":
+			table, column = "pending_proofs", "y"
+		case "SaveBlindSignatures":
+			table, column = "blind_signatures", "b_"
+		}
+		if column == "y" && len(c.inputs) >= 2 {
+			midKey = client.Ys(c.inputs)[1]
+		} else if column == "b_" && len(c.outs) >= 2 {
+			midKey = c.outs[1].B_
+		}
+		if midKey == "" {
+			return // a single-row write: nothing is in the middle
+		}
+		u, err := c.env.AbortInsert(table, column, midKey)
+		if err != nil {
+			r.Inconclusive("midfault: cannot install the trigger: " + err.Error())
+			return
+		}
+		midUndo = u
+	}
 	c.env.Hub.SetController(&chain{inj, cnt})
 	c.env.Hub.Register("op")
 	delivered, sigs, opState, opErr := c07Op(sc, c)
 	c.env.Hub.Unregister()
 	c.env.Hub.SetController(nil)
+	if midUndo != nil {
+		midUndo()
+	}
 	var prev, at string
 	if inj.Fired != nil {
 		at = inj.Fired.Method
@@ -351,11 +388,26 @@ func c07Run(r *core.Run, sc c07Scen, mode string, k, n int, sig string, seed int
 			delivered = false // crash after the last call: the response never reached the client
 		}
 	}
+	if mode == "midfault" {
+		// the call in which the error struck: the first call of that name whose error carries the marker
+		prev, at = "", method+"(second row)"
+		for i, e := range cnt.Events {
+			if e.Method == method {
+				if i > 0 {
+					prev = cnt.Events[i-1].Method
+				}
+				break
+			}
+		}
+	}
 	if prev == "" {
 		prev = "(start)"
 	}
 	between := prev + "|" + at
 	reached := inj.Fired != nil || k == n
+	if mode == "midfault" {
+		reached = true // the write ran with the trigger in place; what it left behind is judged below
+	}
 	if mode == "crash" && opErr == nil && inj.Fired != nil {
 		delivered = false
 	}
